@@ -61,16 +61,17 @@ const (
 	opContinuation
 	opELFSection
 	opValueEdit
+	opSysLine // systematic pass only
 	nOps
 )
 
 var opNames = [nOps]string{"bitflip", "byteset", "trunc-random", "trunc-token", "line-delete", "line-dup", "line-swap",
 	"token-delete", "token-dup", "token-swap", "lenfield", "token-repeat", "deep-nest", "long-line", "splice", "number-edit",
-	"invalid-utf8", "chunk-delete", "chunk-dup", "keyword-insert", "continuation", "elf-section", "value-edit"}
+	"invalid-utf8", "chunk-delete", "chunk-dup", "keyword-insert", "continuation", "elf-section", "value-edit", "line-edit-systematic"}
 
 // weights for text and for binary seeds
-var textWeights = [nOps]int{4, 6, 5, 6, 6, 5, 4, 7, 5, 4, 1, 5, 5, 2, 4, 7, 4, 3, 2, 4, 6, 0, 12}
-var binWeights = [nOps]int{10, 9, 6, 2, 1, 1, 1, 2, 2, 2, 14, 2, 2, 1, 4, 2, 2, 5, 3, 1, 1, 12, 0}
+var textWeights = [nOps]int{4, 6, 5, 6, 6, 5, 4, 7, 5, 4, 1, 5, 5, 2, 4, 7, 4, 3, 2, 4, 6, 0, 12, 0}
+var binWeights = [nOps]int{10, 9, 6, 2, 1, 1, 1, 2, 2, 2, 14, 2, 2, 1, 4, 2, 2, 5, 3, 1, 1, 12, 0, 0}
 
 const delims = "\n \t,:=\"'{}[]<>();/|@#&"
 
